@@ -7,6 +7,7 @@ package pipeline
 func init() {
 	vpRegister("c17_fullsource", vpH_c17_fullsource)
 	vpRegister("c17_dictionary", vpH_c17_dictionary)
+	vpRegister("c17_history", vpH_c17_history)
 }
 
 // sources built from symbolic pieces and the code's own string constants
@@ -84,4 +85,44 @@ func vpCheckFullSource(s string) {
 	vpAssert(err == nil && isMap && len(m) == 1, "a plugin marshals to a one-entry map")
 	_, has := m[got]
 	vpAssert(has, "the marshalled key is the canonical source")
+}
+
+// Canonicalisation has no memory: the answer for a source does not depend on
+// which, or how many, other sources were canonicalised before it in the same
+// process (the number of earlier calls is taken at and around the integer
+// constants of the plugin code, and several hundred).
+func vpH_c17_history() {
+	n := vpBoundarySize("*plugin.go,*plugins.go", vpParam("calls"))
+	probes := []string{"early", "my-org/early#v1", "github.com/o/early-buildkite-plugin#v1.0.0", "./local/early", "https://h/early.git"}
+	var first []string
+	for _, s := range probes {
+		first = append(first, (&Plugin{Source: s}).FullSource())
+	}
+	for i := 0; i < n; i++ {
+		name := "p" + vpItoa(i)
+		switch i % 3 {
+		case 1:
+			name = "org" + vpItoa(i) + "/" + name + "#v" + vpItoa(i)
+		case 2:
+			name = "github.com/org/" + name + "-buildkite-plugin#v" + vpItoa(i)
+		}
+		_ = (&Plugin{Source: name}).FullSource()
+	}
+	for j, s := range probes {
+		again := (&Plugin{Source: s}).FullSource()
+		vpAssert(again == first[j], "the canonical form of a source is the same however many other sources were canonicalised in between")
+		vpAssert((&Plugin{Source: again}).FullSource() == again, "canonical forms stay fixed points after many other calls")
+	}
+}
+
+func vpItoa(i int) string {
+	if i == 0 {
+		return "0"
+	}
+	s := ""
+	for i > 0 {
+		s = string(rune('0'+i%10)) + s
+		i /= 10
+	}
+	return s
 }
